@@ -78,6 +78,9 @@ func decOptions() cbor.DecOptions {
 		MaxArrayElements: 2147483647,
 		MaxMapPairs:      2147483647,
 		UTF8:             cbor.UTF8DecodeInvalid,
+		// Two entries of a map whose keys encode to the same bytes (int32(1) and int64(1) in a map[any]any) must not
+		// merge silently into one: the schemas refuse such a map, so the transport may not repair it.
+		DupMapKey: cbor.DupMapKeyEnforcedAPF,
 	}
 }
 
